@@ -45,6 +45,11 @@ def one(ctx, kind, pts, t1, t2, family, int_dtype=None):
         if model != real:
             ctx.fail('correspondence', 'multi_knee', site, case, dict(impl=real, model=model))
     nontriv = None
+    if real is not None and orc.nonfinite:
+        # the shape clause needs no oracle value: evaluate it even when a criterion array contains inf / nan
+        lo = 0 if kind == 'menger' else 1
+        if any(a >= b for a, b in zip(real, real[1:])) or any(not (lo <= k <= n - 2) for k in real):
+            ctx.fail('predicate', 'strictly-increasing-inside-[lo,n-2]', site, case, dict(knees=real, lo=lo, n=n))
     if real is not None and not orc.nonfinite:
         lo = 0 if kind == 'menger' else 1
         if any(a >= b for a, b in zip(real, real[1:])) or any(not (lo <= k <= n - 2) for k in real):
@@ -100,6 +105,10 @@ def run(ctx):
     for _ in range(500 if quick else 10000):
         kind = rng.choice(detfam.DETS)
         n = rng.randrange(3, 40 if quick else 120)
+        if rng.random() < 0.04:
+            n = rng.choice([2, 3, 4])                      # the smallest curves (at most t2 points for every detector)
+        elif rng.random() < 0.01:
+            n = rng.randrange(150, 400)                    # a long curve now and then
         u = rng.random()
         if u < 0.75:
             pts, fam = gen.dyadic_curve(rng, n, scale_exp=0)
@@ -119,7 +128,7 @@ def run(ctx):
             r = rng.randrange(l + 3, n + 1)
             t1 = float(lf.smape_points(pts[l:r], lf.linear_fit_points(pts[l:r])))
         else:
-            t1 = rng.choice([0.0, 0.001, 0.01, 0.05, 0.1, 0.5])
+            t1 = rng.choice([0.0, 0.001, 0.01, 0.05, 0.1, 0.5, 1.0, 2.5])
         one(ctx, kind, pts, t1, t2, fam)
 
 
